@@ -16,6 +16,7 @@ NEXT = "OrqModel.Properties.Next"
 RERUN = "OrqModel.Properties.Rerun"
 PARAMS = "OrqModel.Properties.Params"
 COMPLETE = "OrqModel.Properties.ComposeComplete"
+RETRY = "OrqModel.Properties.Retry"
 
 TRUSTED = [
     "Lean 4.33 kernel (thorough tier: re-checked by leanchecker)",
@@ -48,7 +49,8 @@ PROPS = {
         title="no stuck workflow",
         theorems={STATUS: ["tbl_succeeded_doors_task", "tbl_failure_covered", "tbl_task_targets_have_events", "tbl_item_targets_have_events", "tbl_failed_request_total", "tbl_leave_active_total", "tbl_quiescent_resolves"], ERRORS: ["C11_update_never_raises_expr"]},
         keys=["status", "staged", "sequence"], offers="ids",
-        prof=dict(), hist=dict(p_pause=0.1, p_cancel=0.05, p_rerun=0.4, p_task_pause=0.05, p_lifecycle=0.3, p_lazy_start=0.25),
+        prof=dict(p_template=0.35, templates=[9, 9, 9, 9, 2, 0, 1, 3, 4, 5, 6, 7, 8]),
+        hist=dict(p_pause=0.1, p_cancel=0.05, p_rerun=0.4, p_task_pause=0.05, p_lifecycle=0.3, p_lazy_start=0.25, p_odd_terminal=0.2),
         monitor="C03", unproven=["C03_quiescent_resting (history invariant) is not proved; search only"],
     ),
     "C04": dict(
@@ -118,10 +120,11 @@ PROPS = {
     ),
     "C13": dict(
         title="retry: bounded attempts, no transition from a retried attempt",
-        theorems={ITEMS: ["C13_retry_iff", "C13_retry_requires_tally_below_count", "C13_completed_rows", "C13_retry_event_reopens"]},
+        theorems={ITEMS: ["C13_retry_iff", "C13_retry_requires_tally_below_count", "C13_completed_rows", "C13_retry_event_reopens"],
+                  RETRY: ["C13_tally_bounded", "C13_update_keeps_bound", "C13_retrying_only_by_retry_event", "C13_retry_event_licensed"]},
         keys=["status", "staged", "sequence", "contexts"], offers="full",
-        prof=dict(p_retry=0.8, max_tasks=4), hist=dict(p_fail=0.5, p_pause=0.05), monitor="C13",
-        unproven=["C13_bound as a history invariant (tally <= count) not proved; single-step lemma only"],
+        prof=dict(p_retry=0.8, max_tasks=4, p_template=0.3, templates=[10, 10, 10, 3, 3]), hist=dict(p_fail=0.5, p_pause=0.05), monitor="C13",
+        unproven=["the bound is proved on the tally (C13_tally_bounded: every history, every evaluator); that each re-offer corresponds to one bump of the tally, the delay of re-offers and the absence of transitions from a retried attempt are monitored, not proved"],
     ),
     "C14": dict(
         title="composed graph is exactly the definition",
@@ -131,7 +134,7 @@ PROPS = {
     ),
     "C15": dict(
         title="accepted definitions are executable; broken references reported",
-        theorems={SITES: ["specFacts_expr_positions_inspected", "specFacts_workflow_inspected"], STATUS: ["tbl_task_targets_have_events", "tbl_item_targets_have_events"], ERRORS: ["C11_update_never_raises_expr", "C11_next_never_raises_expr"]},
+        theorems={SITES: ["specFacts_expr_positions_inspected", "specFacts_workflow_inspected"], STATUS: ["tbl_task_targets_have_events", "tbl_item_targets_have_events", "C15_task_events_accepted"], ERRORS: ["C11_update_never_raises_expr", "C11_next_never_raises_expr"]},
         keys=["status", "errors"], offers="ids", prof=dict(), hist=dict(p_pause=0.05, p_cancel=0.05, p_rerun=0.2),
         monitor="C15", unproven=["C15_no_internal_error (history) not proved; the inspectors are not modelled, only their inventories are generated"],
     ),
@@ -144,12 +147,13 @@ PROPS = {
     "C17": dict(
         title="rerun re-executes only what was asked and converges",
         theorems={RERUN: ["C17_reject_active", "C17_reject_unknown", "C17_accepted_resuming", "C17_only_completed_accepted"], HISTORY: ["C18_extends_rerun"]},
-        keys=None, offers="ids", prof=dict(p_items=0.15), hist=dict(p_fail=0.45, p_rerun=0.9, p_rerun_any=0.1, p_pause=0.1), monitor="C17",
+        keys=None, offers="ids", prof=dict(p_items=0.15, p_template=0.3, templates=[11, 11, 11, 0, 1, 2, 6, 9]),
+        hist=dict(p_fail=0.45, p_rerun=0.9, p_rerun_any=0.1, p_pause=0.1), monitor="C17",
         unproven=["convergence to the clean twin is relational; search only"],
     ),
     "C18": dict(
         title="history is append-only; finished records never change",
-        theorems={HISTORY: ["C18_extends_request", "C18_extends_next", "C18_extends_report", "C18_extends_render", "C18_extends_rerun", "C18_history_extends", "C18_record_core_fixed", "C18_context_fixed"], ITEMS: ["C13_completed_rows"]},
+        theorems={HISTORY: ["C18_extends_request", "C18_extends_next", "C18_extends_report", "C18_extends_render", "C18_extends_rerun", "C18_history_extends", "C18_record_core_fixed", "C18_context_fixed"], ITEMS: ["C13_completed_rows"], RETRY: ["C13_retrying_only_by_retry_event"]},
         keys=["contexts", "routes", "sequence"], offers=None,
         prof=dict(p_items=0.25, p_join=0.7, p_loop=0.3, p_template=0.3, templates=[8, 8, 2, 0, 3]),
         hist=dict(p_fail=0.3, p_persist=0.15, p_rerun=0.3, p_dup_report=0.3, p_lazy_start=0.25),
